@@ -233,3 +233,98 @@ Proof.
   apply elems_of_le64. apply Forall_of_file_ok. unfold F.doc_valid_pairs, F.valid_with in Hv.
   apply andb_prop in Hv. apply Hv.
 Qed.
+
+(* ------------------------------------------------------------------ Vec<u8> *)
+
+Lemma elems_of_bytes_8 a r : length a = 8%nat ->
+  F.elems_of_bytes (a ++ r) = match F.elems_of_bytes r with Some es => Some (F.le_value a :: es) | None => None end.
+Proof.
+  intros H. destruct a as [|b0 [|b1 [|b2 [|b3 [|b4 [|b5 [|b6 [|b7 [|b8 a]]]]]]]]]; try discriminate H. reflexivity.
+Qed.
+
+Lemma le_value_zeros k : F.le_value (repeat 0 k) = 0.
+Proof. induction k as [|k IH]; [reflexivity|]. cbn [repeat F.le_value]. rewrite IH. lia. Qed.
+Lemma le_value_app_zeros l k : F.le_value (l ++ repeat 0 k) = F.le_value l.
+Proof. induction l as [|b t IH]; [apply le_value_zeros|]. cbn [app F.le_value]. rewrite IH. reflexivity. Qed.
+
+Lemma elems_pack fuel : forall bs pad, (length bs <= fuel)%nat -> ((length bs + pad) mod 8 = 0)%nat -> (pad < 8)%nat ->
+  F.elems_of_bytes (bs ++ repeat 0 pad) = Some (F.pack_bytes fuel bs).
+Proof.
+  induction fuel as [|k IH]; intros bs pad Hf Hm Hp.
+  - destruct bs; [|cbn [length] in Hf; lia]. cbn [length] in Hm. replace pad with 0%nat by lia. reflexivity.
+  - destruct bs as [|b0 t] eqn:E.
+    + cbn [length] in Hm. replace pad with 0%nat by lia. reflexivity.
+    + rewrite <- E in *. assert (Hne : (0 < length bs)%nat) by (subst bs; cbn [length]; lia).
+      assert (Hpk : F.pack_bytes (S k) bs = F.le_value (firstn 8 bs) :: F.pack_bytes k (skipn 8 bs)) by (subst bs; reflexivity).
+      rewrite Hpk. clear Hpk E.
+      destruct (Nat.le_gt_cases 8 (length bs)) as [Hge|Hlt].
+      * rewrite <- (firstn_skipn 8 bs) at 1. rewrite <- app_assoc.
+        rewrite elems_of_bytes_8 by (rewrite firstn_length; lia).
+        rewrite (IH (skipn 8 bs) pad); [reflexivity|rewrite skipn_length; lia| |exact Hp].
+        rewrite skipn_length. replace (length bs - 8 + pad)%nat with (length bs + pad - 8)%nat by lia.
+        rewrite <- (Nat.mod_add _ 1 8) by lia. replace (length bs + pad - 8 + 1 * 8)%nat with (length bs + pad)%nat by lia. exact Hm.
+      * assert (Hpad : pad = (8 - length bs)%nat) by lia.
+        rewrite <- (app_nil_r (bs ++ repeat 0 pad)). rewrite elems_of_bytes_8 by (rewrite app_length, repeat_length; lia).
+        cbn [F.elems_of_bytes]. rewrite le_value_app_zeros, firstn_all2, skipn_all2 by lia.
+        destruct k; reflexivity.
+Qed.
+
+Lemma repeatN_repeat {A} (x : A) n : repeatN x n = repeat x n.
+Proof. induction n as [|n IH]; [reflexivity|]. cbn [repeatN repeat]. rewrite IH. reflexivity. Qed.
+
+Lemma conform_bytes m l : c_wf (bytes_codec m) l ->
+  F.elems_of_bytes (c_enc (bytes_codec m) l) = Some (F.doc_encode_bytes l) /\
+  F.doc_valid_bytes (F.doc_encode_bytes l) = true /\ F.doc_content_bytes (F.doc_encode_bytes l) = Some l.
+Proof.
+  intros [Hb Hl]. unfold ISIZE_MAX in Hl. unfold bytes_ok in Hb. unfold byte in *.
+  assert (Hlen : F.lenN l < 2 ^ 64) by (change (F.lenN l) with (lenN l); lia).
+  split; [|apply FP.roundtrip_bytes; assumption].
+  cbn [bytes_codec c_enc]. rewrite repeatN_repeat. unfold F.doc_encode_bytes.
+  destruct (pad_len_spec (lenN l)) as (_ & P2 & P3).
+  rewrite elems_of_bytes_8 by reflexivity.
+  rewrite (elems_pack (length l) l (N.to_nat (pad_len (lenN l)))); [|lia| |lia].
+  - unfold le64. rewrite le_value_le_bytes. change (256 ^ N.of_nat 8) with (2 ^ 64). rewrite N.mod_small by lia. reflexivity.
+  - unfold lenN in *. lia.
+Qed.
+
+(* ------------------------------------------------------------------ Option<V> around any element-level serializer *)
+
+Lemma conform_opt {A B} (c : codec A) (ser : A -> list N) (p : F.parser B) (content : A -> B) (o : option A) :
+  (forall x, c_enc c x = flat_map le64 (ser x)) ->
+  (forall x, c_wf c x -> lenN (ser x) = c_size c x /\ F.file_ok (ser x) = true /\ FP.reads p (ser x) (content x)) ->
+  c_wf (option_codec c) o ->
+  let f := F.doc_encode_opt (option_map ser o) in
+  F.elems_of_bytes (c_enc (option_codec c) o) = Some f /\
+  F.doc_valid_opt p f = true /\ F.doc_content_opt p f = Some (option_map content o).
+Proof.
+  intros Henc Hser Hwf. destruct o as [x|]; cbn [option_map].
+  - cbn [option_codec c_wf] in Hwf. destruct Hwf as [Hx Hs]. destruct (Hser x Hx) as (Hl & Hf & Hr).
+    assert (Hne : ser x <> []) by (intros E; rewrite E in Hl; change (lenN (@nil N)) with 0 in Hl; lia).
+    split.
+    + cbn [option_codec c_enc]. rewrite Henc, <- Hl. change (le64 (lenN (ser x)) ++ flat_map le64 (ser x)) with (flat_map le64 (lenN (ser x) :: ser x)).
+      apply elems_of_le64. constructor; [assert (2 ^ 61 < 2 ^ 64) by (apply N.pow_lt_mono_r; lia); unfold F.lenN, lenN in *; lia|apply Forall_of_file_ok; exact Hf].
+    + apply FP.roundtrip_opt_some; try assumption. change (F.lenN (ser x)) with (lenN (ser x)).
+      assert (2 ^ 61 < 2 ^ 64) by (apply N.pow_lt_mono_r; lia). lia.
+  - split; [reflexivity|apply FP.roundtrip_opt_none].
+Qed.
+
+(* instance: Option<IntVector> *)
+Lemma conform_opt_int m (o : option intvec) :
+  c_wf (option_codec (iv_codec m)) o -> (forall v, o = Some v -> iv_inv v) ->
+  let f := F.doc_encode_opt (option_map iv_serialize o) in
+  F.elems_of_bytes (c_enc (option_codec (iv_codec m)) o) = Some f /\
+  F.doc_valid_opt F.p_int f = true /\ F.doc_content_opt F.p_int f = Some (option_map abs_is o).
+Proof.
+  intros Hwf Hinv. destruct o as [v|].
+  - specialize (Hinv v eq_refl). cbn [option_codec c_wf] in Hwf. destruct Hwf as [Hx Hs].
+    assert (Hl : lenN (iv_serialize v) = c_size (iv_codec m) v) by (rewrite iv_serialize_len, iv_size; reflexivity).
+    pose proof (file_ok_iv_model v Hx) as Hf. pose proof (reads_int_model v Hinv) as Hr.
+    assert (Hne : iv_serialize v <> []) by discriminate.
+    cbn [option_map]. split.
+    + cbn [option_codec c_enc]. rewrite iv_enc_elems, <- Hl.
+      change (le64 (lenN (iv_serialize v)) ++ flat_map le64 (iv_serialize v)) with (flat_map le64 (lenN (iv_serialize v) :: iv_serialize v)).
+      apply elems_of_le64. constructor; [assert (2 ^ 61 < 2 ^ 64) by (apply N.pow_lt_mono_r; lia); unfold F.lenN, lenN in *; lia|apply Forall_of_file_ok; exact Hf].
+    + apply FP.roundtrip_opt_some; try assumption. change (F.lenN (iv_serialize v)) with (lenN (iv_serialize v)).
+      assert (2 ^ 61 < 2 ^ 64) by (apply N.pow_lt_mono_r; lia). lia.
+  - split; [reflexivity|apply FP.roundtrip_opt_none].
+Qed.
